@@ -32,7 +32,9 @@ Swap == {<<0, 1>>, <<1, 0>>}         \* the abstract per-sample conversion funct
 ConstSeqs(n) == {[i \in 1..k |-> x] : k \in 0..n, x \in Vals}
 StripedIns(x) == IF x.ch = 0 THEN {<<>>}
                  ELSE [1..x.ch -> {[i \in 1..k |-> 1] : k \in 0..(Length(x) + 1)}]
-GrowCaps(d, s) == {c \in {d.len + s.len, d.len + s.len + d.ch, 2 * (d.len + s.len)} : c <= MaxCells}
+UpTo(n, ch) == IF ch = 0 THEN n ELSE ((n + ch - 1) \div ch) * ch          \* n rounded up to whole frames
+GrowCaps(d, s) == LET nl == d.len + s.len IN        \* the runtime's choice: some whole number of frames >= the length
+                  {c \in {UpTo(nl, d.ch), UpTo(nl, d.ch) + d.ch, UpTo(2 * nl, d.ch)} : c <= MaxCells}
 
 Init == world = EmptyWorld
 
